@@ -100,6 +100,15 @@ func vfC10expectFail(assign map[string]vfC10Src, epochOf map[string]uint64, root
 		if src.Patch == "epoch" {
 			return true, fmt.Sprintf("the epoch field of %s was replaced by %d, config says %d", role, epochOf["B"], cfgEpoch)
 		}
+		if src.Patch == "forged-epoch" {
+			// B's file whose recorded epoch was overwritten with the configured one: everything else in it still
+			// belongs to B (its slot range for slot-to-blocktime, its root CID for the others)
+			if role == "slot_to_blocktime" {
+				return true, fmt.Sprintf("%s covers the slots of epoch %d although its epoch field was forged to %d", role, epochOf["B"], cfgEpoch)
+			}
+			roots[rootOf["B"]] = true
+			continue
+		}
 		if src.Patch == "root" {
 			roots[rootOf["A2"]] = true
 			continue
@@ -174,6 +183,26 @@ func vfC10eval(c *vfC10Case, st map[string]int) error {
 			if ok {
 				patched[role+"/"+field] = dst
 			}
+		}
+	}
+	// B's files with their epoch field overwritten by A's epoch (a file of another epoch dressed up for this one)
+	epochA := make([]byte, 8)
+	binary.LittleEndian.PutUint64(epochA, gens["A"].Num)
+	for _, role := range []string{"cid_to_offset_and_size", "slot_to_cid", "sig_to_cid", "sig_exists", "slot_to_blocktime"} {
+		src := vfRoleFile(envs["B"], role)
+		dst := filepath.Join(dir, "forged-"+role)
+		ok := false
+		if role == "slot_to_blocktime" {
+			// header: magic (14 bytes), start, end, epoch, capacity (8 bytes each, little endian)
+			if raw, err := os.ReadFile(src); err == nil && len(raw) >= 46 {
+				copy(raw[30:38], epochA)
+				ok = os.WriteFile(dst, raw, 0o644) == nil
+			}
+		} else {
+			ok = vfPatchMeta(src, dst, indexmeta.MetadataKey_Epoch, epochA)
+		}
+		if ok {
+			patched[role+"/forged-epoch"] = dst
 		}
 	}
 	try := func(assign map[string]vfC10Src, label string) error {
@@ -271,10 +300,18 @@ func vfC10eval(c *vfC10Case, st map[string]int) error {
 			labels = append(labels, fmt.Sprintf("%s <- A's %s file", role, other))
 		}
 	}
-	// A's own files with exactly one identity field replaced (epoch of B / root of A2)
+	// A's own files with exactly one identity field replaced (epoch of B / root of A2), and B's files with their
+	// epoch field forged to A's
 	for k := range patched {
 		role, field := filepath.Dir(k), filepath.Base(k)
 		m := clone()
+		if field == "forged-epoch" {
+			m[role] = vfC10Src{"B", role, field}
+			subs = append(subs, m)
+			labels = append(labels, fmt.Sprintf("%s of B with its epoch field forged to the configured epoch", role))
+			st["field-patch:forged-epoch"]++
+			continue
+		}
 		m[role] = vfC10Src{"A", role, field}
 		subs = append(subs, m)
 		labels = append(labels, fmt.Sprintf("%s of A with its %s field replaced", role, field))
@@ -396,7 +433,7 @@ func vfC10eval(c *vfC10Case, st map[string]int) error {
 func TestVfC10(t *testing.T) {
 	run := vfh.Begin("C10", "identity")
 	defer run.End(t)
-	run.Require("must-fail", "must-load", "foreign-car-fetches", "same-layout-foreign-car-fetches", "field-patch:epoch", "field-patch:root")
+	run.Require("must-fail", "must-load", "foreign-car-fetches", "same-layout-foreign-car-fetches", "field-patch:epoch", "field-patch:root", "field-patch:forged-epoch")
 	opts := cargen.DefaultOpts()
 	opts.MaxBlocks = 5
 	opts.BigFrames = false
